@@ -311,6 +311,7 @@ func errorChainToMain(c *an.Ctx, r *runnerRoles, rule string) {
 		return
 	}
 	exitCoders(c, rule)
+	signalExit(c, rule)
 	exempt := map[string]string{}
 	// watch mode is not a CLI target: inside internal/watch a failed run is logged and the watcher keeps
 	// serving (C20.5); a watcher's own failure is logged by the goroutine the watch command starts for it
@@ -882,5 +883,137 @@ func exitCoders(c *an.Ctx, rule string) {
 	}
 	if n == 0 {
 		c.OK(rule, "module:exit-coders", token.NoPos, "no error type of the module implements cli.ExitCoder: the process status is decided in main")
+	}
+}
+
+// signalExit: an interrupted run does not report success. The goroutine that receives SIGINT/SIGTERM ends the
+// process itself, with a non-zero status, once it has told the run to stop: after a value was received from a
+// channel registered with signal.Notify, every path reaches os.Exit before it blocks on the channel again. A handler
+// that only aborts and lets the command unwind leaves the exit status to whatever the aborted run returns — nil when
+// the stage that was running allows failure, or when the signal fell between two stages.
+func signalExit(c *an.Ctx, rule string) {
+	p := c.P
+	n := 0
+	for _, fn := range p.Funcs {
+		if !inPkgs("cmd/taskctl")(fn) || fn.Blocks == nil {
+			continue
+		}
+		for _, ci := range an.CallsIn(fn, "os/signal.Notify") {
+			ch := ci.Common().Args[0]
+			// the receiving code: fn itself or a closure of it that uses the same channel
+			for _, g := range an.WithAnon(fn) {
+				isSig := func(v ssa.Value) bool {
+					for _, a := range an.Sources(v) {
+						for _, b := range an.Sources(ch) {
+							if a == b {
+								return true
+							}
+						}
+						if fv, ok := a.(*ssa.FreeVar); ok {
+							// bound to the channel's cell
+							if g.Parent() != nil {
+								found := false
+								an.EachInstr(g.Parent(), func(in ssa.Instruction) {
+									if mc, ok := in.(*ssa.MakeClosure); ok && mc.Fn == ssa.Value(g) {
+										for i, fv2 := range g.FreeVars {
+											if fv2 == fv && i < len(mc.Bindings) {
+												for _, b := range an.Sources(ch) {
+													if mc.Bindings[i] == b {
+														found = true
+													}
+													if u, ok := b.(*ssa.UnOp); ok && u.X == mc.Bindings[i] {
+														found = true
+													}
+												}
+											}
+										}
+									}
+								})
+								if found {
+									return true
+								}
+							}
+						}
+					}
+					return false
+				}
+				isRecv := func(in ssa.Instruction) bool {
+					switch x := in.(type) {
+					case *ssa.UnOp:
+						return x.Op == token.ARROW && isSig(x.X)
+					case *ssa.Next:
+						if r, ok := x.Iter.(*ssa.Range); ok {
+							return isSig(r.X)
+						}
+					}
+					return false
+				}
+				an.EachInstr(g, func(in ssa.Instruction) {
+					if !isRecv(in) {
+						return
+					}
+					n++
+					// from the receive (on the branch where a value was received): every path meets os.Exit with a
+					// non-zero status before it meets another receive or the end of the goroutine
+					type pos struct {
+						b   *ssa.BasicBlock
+						idx int
+					}
+					starts := []pos{{in.Block(), an.InstrIndex(in) + 1}}
+					if u, ok := in.(*ssa.UnOp); ok && u.CommaOk {
+						for _, x := range in.Block().Instrs {
+							iff, isIf := x.(*ssa.If)
+							if !isIf {
+								continue
+							}
+							if e, isE := iff.Cond.(*ssa.Extract); isE && e.Tuple == ssa.Value(u) && e.Index == 1 {
+								starts = []pos{{in.Block().Succs[0], 0}}
+							}
+						}
+					}
+					if _, isNext := in.(*ssa.Next); isNext {
+						// range over the channel through an iterator: the body is the successor taken while it yields
+						if len(in.Block().Succs) == 2 {
+							starts = []pos{{in.Block().Succs[0], 0}}
+						}
+					}
+					exits, again := true, false
+					seen := map[*ssa.BasicBlock]bool{}
+					var walk func(b *ssa.BasicBlock, idx int)
+					walk = func(b *ssa.BasicBlock, idx int) {
+						for i := idx; i < len(b.Instrs); i++ {
+							x := b.Instrs[i]
+							if call, ok := x.(*ssa.Call); ok && an.ShortCallee(&call.Call) == "os.Exit" {
+								if k, isK := an.ConstInt(call.Call.Args[0]); isK && k == 0 {
+									exits = false
+								}
+								return
+							}
+							if isRecv(x) {
+								again = true
+								return
+							}
+						}
+						if len(b.Succs) == 0 {
+							exits = false
+							return
+						}
+						for _, sc := range b.Succs {
+							if !seen[sc] {
+								seen[sc] = true
+								walk(sc, 0)
+							}
+						}
+					}
+					for _, st := range starts {
+						walk(st.b, st.idx)
+					}
+					c.Check(exits && !again, rule, an.Short(g)+":signal-exit", in.Pos(), "after a signal the handler ends the process itself before it waits for another one", an.Short(g)+" receives a signal and can go back to waiting (or end) without calling os.Exit with a non-zero status: the process's exit status is then whatever the aborted command returns — 0 when the interrupted stage allows failure or the signal fell between two stages")
+				})
+			}
+		}
+	}
+	if n == 0 {
+		c.Note(rule, "cmd/taskctl:signals", token.NoPos, "no signal channel is received from in cmd/taskctl")
 	}
 }
